@@ -9,7 +9,7 @@ E2 = "e2-input-enumerator"
 TB_E1 = ("Go 1.26.8 runtime and testing/synctest (virtual clock, quiescence); in-memory doubles for TCP (ordered reliable pipes), "
          "MongoDB (find-one / upsert-$set) and the CDR directory; TLS record layer skipped in exploration builds; bounds as reported in the evidence file")
 CHECKS = {
- "C01": dict(engine=E1, technique="explicit-state BFS over request histories on the real implementation (replay from fresh world), per-step accounting oracle",
+ "C01": dict(engine=E1, technique="explicit-state BFS over request histories on the real implementation (replay from fresh world), per-step accounting oracle; conformance replay of explored histories on the real TCP/TLS stack",
    text="Every history of create/update/release/recharge up to the depth bound over the stated alphabets is executed on the real processor + Diameter clients + ABMF/rating servers; after every step balance+reservation is compared with the credit-conservation identity. Exhaustive within the bounds reported.",
    ref="6 C01", note=TB_E1),
  "C06": dict(engine=E1, technique="explicit-state BFS over disciplined-consumer histories on the real implementation, per-step overdraft/grant oracle",
